@@ -404,8 +404,8 @@ def history_variants(rng, rows, pid, family):
 
 
 TABLE_FAMILIES = ["forest", "cycle", "selfloop", "unlisted", "random", "large", "cycle", "random"]
-HIST_FAMILIES = ["plain", "plain", "plain", "vanish", "recycled_caller", "gone_caller", "gone_then_recycled",
-                 "stale_lowest", "plain", "vanish"]
+HIST_FAMILIES = ["plain", "plain", "vanish", "recycled_caller", "gone_caller", "gone_then_recycled",
+                 "stale_lowest", "plain", "vanish", "vanish"]
 
 
 def table_features(case):
@@ -523,6 +523,56 @@ def run_cases(ctx, impl, cases, res, source, record=True):
     return verdicts
 
 
+class _Collector:
+    """Result-like sink used inside worker processes (merged into the real Result afterwards)."""
+
+    def __init__(self):
+        self.disagreements = []
+        self.known_seen = {}
+        self.distribution = {}
+
+    def count(self, key, n=1):
+        self.distribution[key] = self.distribution.get(key, 0) + n
+
+    def disagree(self, kind, inp, impl, model, spec=None, note="", finding=None):
+        if len(self.disagreements) < 50:
+            self.disagreements.append({"kind": kind, "input": inp, "impl": impl, "model": model, "spec": spec,
+                                       "note": note, "finding": finding})
+
+
+_SHARD_CTX = None
+
+
+def _shard(cases):
+    col = _Collector()
+    impl = Impl(_SHARD_CTX)
+    try:
+        CH = 3000
+        for a in range(0, len(cases), CH):
+            run_cases(_SHARD_CTX, impl, cases[a:a + CH], col, "correspond")
+    finally:
+        impl.close()
+    return col.disagreements, col.known_seen, col.distribution
+
+
+def run_sharded(ctx, cases, res, workers):
+    """Run `cases` over `workers` forked processes (each with its own fake procfs and driver)."""
+    global _SHARD_CTX
+    import multiprocessing
+    _SHARD_CTX = ctx
+    ctx.psutil  # import before forking
+    mp = multiprocessing.get_context("fork")
+    shards = [cases[i::workers] for i in range(workers)]
+    with mp.Pool(workers) as pool:
+        outs = pool.map(_shard, shards)
+    for dis, ks, dist in outs:
+        res.disagreements.extend(dis)
+        for k, v in ks.items():
+            res.known_seen[k] = res.known_seen.get(k, 0) + v
+        for k, v in dist.items():
+            res.count(k, v)
+
+
 def exhaustive_tables(k, pids):
     """all ppid assignments over `pids[:k]` (each PID → any listed PID or an unlisted one) × all weak start orders"""
     P = pids[:k]
@@ -589,7 +639,7 @@ def correspond(ctx, res):
                                  mid=[[1, 0, 1], [6, 5, 20]], family="corpus:gone-then-recycled"))
         tags += [c["family"] for c in cases]
         # ---- random
-        n_tables = ctx.n(260, 8000)
+        n_tables = ctx.n(640, 8000)
         for i in range(n_tables):
             tf = TABLE_FAMILIES[i % len(TABLE_FAMILIES)]
             hf = HIST_FAMILIES[(i // len(TABLE_FAMILIES) + i) % len(HIST_FAMILIES)]
@@ -617,9 +667,13 @@ def correspond(ctx, res):
             ex_desc.append("%d tables of %d processes" % (cnt, k))
         # ---- run
         CH = 3000
+        workers = 1 if ctx.tier == "quick" else max(1, min(8, (os.cpu_count() or 2) // 2))
+        if workers > 1:
+            run_sharded(ctx, cases, res, workers)
         for a in range(0, len(cases), CH):
             chunk = cases[a:a + CH]
-            verdicts = run_cases(ctx, impl, chunk, res, "correspond")
+            if workers == 1:
+                run_cases(ctx, impl, chunk, res, "correspond")
             for j, c in enumerate(chunk):
                 feats = table_features(c)
                 fam = tags[a + j]
@@ -660,6 +714,7 @@ def correspond(ctx, res):
                           "comm strings of length ≤3 over {')','(',' ','a','\\n','1','\\t'}; the random families are samples")
         res.extra["driver_lines"] = len(cases) + len(slines)
         res.extra["random_cases"] = n_rand
+        res.extra["workers"] = workers
     finally:
         impl.close()
 
